@@ -342,3 +342,25 @@ Example ex_inter : op_inter (VA (ARange [83] 1 1 2 2)) (VA (ARange [83] 2 2 3 3)
 Proof. vm_compute. reflexivity. Qed.
 Example ex_union : op_union (VA (ACell [] 1 1)) (VA (ACell [] 3 4)) = Ok (VA (ARange [] 1 1 3 4)).
 Proof. vm_compute. reflexivity. Qed.
+
+(* the statements as they appear in Props/C11.v *)
+Lemma intersection_full s a b : wf a -> wf b ->
+  op_inter (VA (norm s a)) (VA (norm s b)) = Ok (meet_val s a b)
+  /\ (forall c row, inside (meet_rect a b) c row <-> inside a c row /\ inside b c row)
+  /\ (empty_rect (meet_rect a b) = true <-> ~ exists c row, inside a c row /\ inside b c row).
+Proof.
+  intros Ha Hb. split; [apply inter_value; assumption|]. split; [apply meet_cells|apply meet_empty; assumption].
+Qed.
+Lemma union_full s a b : wf a -> wf b ->
+  op_union (VA (norm s a)) (VA (norm s b)) = Ok (VA (norm s (join_rect a b)))
+  /\ wf (join_rect a b)
+  /\ (forall c row, inside a c row \/ inside b c row -> inside (join_rect a b) c row)
+  /\ (forall u, (forall c row, inside a c row \/ inside b c row -> inside u c row) ->
+                forall c row, inside (join_rect a b) c row -> inside u c row).
+Proof.
+  intros Ha Hb. split; [apply union_value; assumption|]. split; [apply join_wf; assumption|].
+  split; [apply join_upper|]. intros u. apply join_least; assumption.
+Qed.
+Lemma different_sheets_both x y : a_sheet x <> [] -> a_sheet y <> [] -> a_sheet x <> a_sheet y ->
+  op_inter (VA x) (VA y) = Ok (VE VALUE_ERROR) /\ op_union (VA x) (VA y) = Ok (VE VALUE_ERROR).
+Proof. intros Hx Hy Hn. split; apply different_sheets; assumption. Qed.
